@@ -39,6 +39,7 @@ type Harness struct {
 	MaxPaths  map[string]int
 	TimeLimit map[string]int // seconds per entry
 	Overlay   map[string]string
+	Includes  []string
 }
 
 type entrySpec struct {
@@ -123,6 +124,8 @@ func parseHarness(file string) (*Harness, error) {
 			for k, v := range tierKV(arg) {
 				h.TimeLimit[k] = int(v)
 			}
+		case "include": // //vx:include <file relative to the harness dir>: extra file of the same package (shared models)
+			h.Includes = append(h.Includes, arg)
 		case "overlay": // //vx:overlay <repo-relative path> <file relative to harness dir>
 			f := strings.Fields(arg)
 			if len(f) == 2 {
@@ -181,6 +184,8 @@ func vxTimeLT(a, b time.Time) bool           { panic("vx") }
 func vxIsSymbolic() bool                     { panic("vx") }
 func vxErr(msg string) error                 { panic("vx") }
 func vxCatch(f func()) bool                  { panic("vx") }
+func vxBox(v any) []byte                     { panic("vx") }
+func vxUnbox(b []byte, out any) bool         { panic("vx") }
 `
 
 type overlayFlag []string
@@ -214,6 +219,31 @@ func loadHarness(h *Harness, tier string, repo string) (*loaded, error) {
 		filepath.Join(dir, "zz_verif_harness.go"): h.Src,
 		filepath.Join(dir, "zz_verif_prelude.go"): []byte("package " + string(pm[1]) + "\n" + preludeSrc),
 	}
+	for i, inc := range h.Includes {
+		b, err := os.ReadFile(filepath.Join(filepath.Dir(h.File), inc))
+		if err != nil {
+			return nil, err
+		}
+		overlay[filepath.Join(dir, fmt.Sprintf("zz_verif_inc%d.go", i))] = b
+		// directives of included files (redirects, noops, bodies) apply too
+		for _, m := range dirRe.FindAllStringSubmatch(string(b), -1) {
+			arg := strings.TrimSpace(m[2])
+			switch m[1] {
+			case "redirect":
+				if j := strings.LastIndex(arg, " "); j > 0 {
+					h.Redirect[strings.TrimSpace(arg[:j])] = strings.TrimSpace(arg[j+1:])
+				}
+			case "noop":
+				h.Noop = append(h.Noop, arg)
+			case "bodies":
+				for _, bb := range strings.Split(arg, ",") {
+					if bb = strings.TrimSpace(bb); bb != "" {
+						h.Bodies = append(h.Bodies, bb)
+					}
+				}
+			}
+		}
+	}
 	for rel, f := range h.Overlay {
 		b, err := os.ReadFile(filepath.Join(filepath.Dir(h.File), f))
 		if err != nil {
@@ -232,7 +262,7 @@ func loadHarness(h *Harness, tier string, repo string) (*loaded, error) {
 	mode := packages.NeedName | packages.NeedFiles | packages.NeedCompiledGoFiles | packages.NeedImports | packages.NeedTypes | packages.NeedTypesSizes | packages.NeedSyntax | packages.NeedTypesInfo
 	cfg := &packages.Config{Mode: mode, Dir: repo, Env: env, Overlay: overlay}
 	pats := append([]string{h.Pkg}, h.Bodies...)
-	for _, d := range []string{"strings", "bytes", "internal/stringslite", "sort", "slices", "math/bits", "strconv", "unicode/utf8", "path", "cmp", "maps", "container/list"} {
+	for _, d := range []string{"strings", "bytes", "internal/stringslite", "sort", "slices", "math/bits", "strconv", "internal/strconv", "unicode/utf8", "path", "cmp", "maps", "container/list"} {
 		have := false
 		for _, p := range pats {
 			if p == d {
@@ -617,7 +647,7 @@ func main() {
 				}
 				if !isKnown {
 					fmt.Printf("VIOLATION property=%s replay=%s\n", *id, path)
-					fmt.Printf("  entry=%s obligation=%q key=%s\n  model=%v\n", c.Entry, c.Label, key, c.Model)
+					fmt.Printf("  entry=%s obligation=%q key=%s\n  model=%s\n", c.Entry, c.Label, key, shortModel(c.Model))
 					for _, tl := range c.Trace {
 						fmt.Println("   trace:", tl)
 					}
@@ -671,8 +701,8 @@ func main() {
 		}
 	}
 	ev.finish(time.Since(t0))
-	if exit == 1 {
-		// violations dominate
+	if ev.Violations > 0 {
+		exit = 1 // a confirmed violation dominates inconclusive parts of the run
 	}
 	if *evid != "" {
 		ev.write(*evid, exit)
@@ -680,6 +710,27 @@ func main() {
 	fmt.Printf("RESULT property=%s tier=%s exit=%d wall=%.1fs obligations=%d discharged=%d paths=%d violations=%d inconclusive=%d\n", *id, *tier, exit, time.Since(t0).Seconds(), ev.Obligations, ev.Discharged, ev.Paths, ev.Violations, len(ev.Inconclusive))
 	pprof.StopCPUProfile()
 	os.Exit(exit)
+}
+
+func shortModel(m map[string]string) string {
+	keys := make([]string, 0, len(m))
+	for k := range m {
+		keys = append(keys, k)
+	}
+	sort.Slice(keys, func(i, j int) bool {
+		ni, _ := strconv.Atoi(keys[i][strings.LastIndex(keys[i], "#")+1:])
+		nj, _ := strconv.Atoi(keys[j][strings.LastIndex(keys[j], "#")+1:])
+		return ni < nj
+	})
+	var sb strings.Builder
+	for i, k := range keys {
+		if i >= 24 {
+			fmt.Fprintf(&sb, " ... (%d more in the replay file)", len(keys)-i)
+			break
+		}
+		fmt.Fprintf(&sb, " %s=%s", k, m[k])
+	}
+	return sb.String()
 }
 
 func writeJSON(path string, v any) {
@@ -714,7 +765,7 @@ func doReplay(path, repo, solver string) int {
 		return 2
 	}
 	failed, errs := replayCex(l, rec.Cex, solver)
-	fmt.Printf("replay of %s entry=%s inputs=%v\n", rec.Property, rec.Cex.Entry, rec.Cex.Model)
+	fmt.Printf("replay of %s entry=%s inputs=%s\n", rec.Property, rec.Cex.Entry, shortModel(rec.Cex.Model))
 	if len(errs) > 0 {
 		fmt.Println("replay errors:", errs)
 		return 2
